@@ -74,4 +74,22 @@ def windows (k : Nat) : List (Nat × List α) → List (Window α)
     let w := (x :: rest).take k
     if w.length = k ∧ 0 < k then ⟨x.1, (w.getLast?.getD x).1, w.map (·.2)⟩ :: windows k rest else []
 
+/-! ## `split_lines` (src/core/constants.py): LF, CRLF and CR end a line, nothing else does -/
+
+/-- `_LINE_END.split(text)` -/
+def splitRaw : List Char → List (List Char)
+  | [] => [[]]
+  | '\r' :: '\n' :: r => [] :: splitRaw r
+  | '\n' :: r => [] :: splitRaw r
+  | '\r' :: r => [] :: splitRaw r
+  | c :: r => match splitRaw r with
+    | h :: t => (c :: h) :: t
+    | [] => [[c]]
+
+/-- `split_lines`: … and a final line end does not start another line -/
+def splitLines (t : List Char) : List (List Char) :=
+  match (splitRaw t).getLast? with
+  | some [] => (splitRaw t).dropLast
+  | _ => splitRaw t
+
 end ThaiLintModel.C12
